@@ -155,6 +155,37 @@ def gen_seq_lazy(rng):
     return ctx, ("reduce", op, b, tuple(sorted(rv)), ()), {"x": rng.choice(xs)}
 
 
+def carrier_risky(recipe):
+    """mul together with max/min somewhere in the expression: funsor treats (max, mul) and (min, mul) as
+    semirings (ops.DISTRIBUTIVE_OPS), which they are on the non-negative reals only."""
+    has = set()
+
+    def go(r):
+        if isinstance(r, tuple):
+            if r and r[0] in ("binary", "reduce") and isinstance(r[1], str):
+                has.add(r[1])
+            for x in r:
+                go(x)
+    go(recipe)
+    return "mul" in has and bool(has & {"max", "min"})
+
+
+def to_nonneg(r):
+    """Map a recipe into the non-negative carrier: |data|, sub -> add, neg -> abs."""
+    if not isinstance(r, tuple) or not r:
+        return r
+    tag = r[0]
+    if tag == "tensor":
+        return r[:4] + (np.abs(r[4]),) if r[2] == "real" else r
+    if tag == "num":
+        return ("num", abs(r[1]), r[2]) if r[2] == "real" else r
+    if tag == "binary" and r[1] == "sub":
+        return ("binary", "add", to_nonneg(r[2]), to_nonneg(r[3]))
+    if tag == "unary" and r[1] == "neg":
+        return ("unary", "abs", to_nonneg(r[2]))
+    return tuple(to_nonneg(x) if isinstance(x, tuple) else x for x in r)
+
+
 def cases(base_seed, n):
     """The seeded case list: [(ctx, recipe, family, env)]; env binds the free real inputs."""
     rng = random.Random(f"C03-cases-{base_seed}")
@@ -170,7 +201,10 @@ def cases(base_seed, n):
             ctx = gen_ctx(rng)
             depth = rng.choice([1, 2, 2, 3, 3, 4])
             recipe, _free = gen_terms.gen_expr(rng, ctx, depth, "real")
-            out.append((ctx, recipe, "gen_terms", {}))
+            if carrier_risky(recipe):
+                out.append((ctx, to_nonneg(recipe), "gen_terms:nonneg(max-mul carrier)", {}))
+            else:
+                out.append((ctx, recipe, "gen_terms", {}))
     return out
 
 
@@ -361,6 +395,27 @@ def canonical(f, ins, env=None):
     return ("value", {"out": str(g.output), "shape": shape, "vals": [[fmt(x) for x in c[1]] for c in impl]})
 
 
+def force(f, ins, env=None):
+    """canonical() after eager reinterpretation of a result that stayed lazy (memo / collision checks)."""
+    st = canonical(f, ins, env)
+    if st[0] == "lazy":
+        try:
+            st = canonical(reinterpret(f), ins, env)
+        except DECLINE:
+            pass
+    return st
+
+
+def same_key_args(p, q):
+    if isinstance(p, tuple) and isinstance(q, tuple):
+        return len(p) == len(q) and all(same_key_args(a, b) for a, b in zip(p, q))
+    if isinstance(p, Funsor) or isinstance(q, Funsor):
+        return p is q
+    if isinstance(p, frozenset) and isinstance(q, frozenset):
+        return len(p) == len(q) and all(any(a is b for b in q) for a in p)
+    return type(p) is type(q) and p == q if not isinstance(p, np.ndarray) else p is q
+
+
 def digest(table):
     t = {k: v for k, v in table.items() if k != "lazy"}
     return hashlib.blake2b(json.dumps(t, sort_keys=True).encode(), digest_size=8).hexdigest()
@@ -486,6 +541,22 @@ class Spy(Interpretation):
         return self.base.interpret(cls, *args)
 
 
+class LoggedMemoize(Memoize):
+    """Memoize that records every request it answers (including the nested ones issued by the base
+    interpretation's rules and by the FUNSOR_TYPECHECK pass), in completion order."""
+
+    def __init__(self, base):
+        super().__init__(base)
+        self.events = []
+
+    def interpret(self, cls, *args):
+        key = self.make_hash_key(cls, *args)
+        hit = self.cache.get(key) is not None
+        r = super().interpret(cls, *args)
+        self.events.append((cls, args, hit, r))
+        return r
+
+
 def interp_call_observation(term):
     """Number of per-node interpret calls made by the two reinterpreters on `term` (funsor nodes only)."""
     out = {}
@@ -556,37 +627,45 @@ def memo_history(rng, ctx):
             specs.append((Align, (x, tuple(reversed(list(x.inputs))))))
         else:
             specs.append((Subs, (x, ())))
-    spy = Spy(base)
-    results, miss = [], []
+    memo = LoggedMemoize(base)
     try:
-        with Memoize(spy):
+        with memo:
             for cls, args in specs:
-                before = len(spy.log)
-                results.append(cls(*args))
-                # the request itself is the first to reach the base when it is a miss (nested requests follow)
-                miss.append(len(spy.log) > before and spy.log[before][0] is cls and
-                            all(p is q for p, q in zip(spy.log[before][1], args)))
+                cls(*args)
     except DECLINE:
+        return None
+    events = memo.events
+    if len(events) > 400:
         return None
     cls_ids, key_ids = {}, {}
     reqs = []
-    for cls, args in specs:
+    for cls, args, hit, r in events:
         reqs.append([cls_ids.setdefault(cls, len(cls_ids)), _arg_key_ids(args, key_ids)])
+    results = [e[3] for e in events]
+    miss = [not e[2] for e in events]
     obj = [next(j for j in range(i + 1) if results[j] is r) for i, r in enumerate(results)]
     ins = sorted((k, v) for k, v in ctx.items())
     value_ok = []
-    for (cls, args), r in zip(specs, results):
+    for (cls, args, hit, r) in events:
         try:
             with base:
                 e = cls(*args)
         except DECLINE:
-            value_ok.append(True)
+            value_ok.append(None)
             continue
-        a, b = canonical(e, ins), canonical(r, ins)
+        try:
+            a, b = force(e, ins), force(r, ins)
+        except DECLINE:
+            value_ok.append(None)
+            continue
         if a[0] == "value" and b[0] == "value":
             value_ok.append(digest(a[1]) == digest(b[1]))
+        elif a[0] == "bad-inputs" or b[0] == "bad-inputs":
+            value_ok.append(None)       # a request over other names than ctx (bound variables): not tabulated
         else:
-            value_ok.append(a[0] == b[0])
+            value_ok.append(None)       # a side stayed lazy: value comparison inconclusive (counted)
+    specs = [(e[0], e[1]) for e in events]
+    top = len(specs)
     desc = [[cls.__name__, [type(a).__name__ if not isinstance(a, tuple) else f"tuple{len(a)}" for a in args]]
             for cls, args in specs]
     return {"reqs": reqs, "miss": miss, "obj": obj, "value_ok": value_ok, "desc": desc, "base": base_name}
